@@ -81,31 +81,40 @@ fn total_text(c: &CmdSpec) -> usize {
     n
 }
 
-/// could `a` ever be demanded by the usage line? (generous: any rule that can make it required)
+/// Is `a` in the set the usage line of a rendering without parse results may name?  That set is
+/// what clap's required graph unrolls to when no matches exist: required arguments and required
+/// groups, closed under unconditional `requires` (a `requires_if` on a value, `required_if_eq*`
+/// and `required_unless*` need parse results to fire, so they excuse nothing here).  Members of a
+/// group in the set count as nameable (the group is written as `<a|b>`).
 fn maybe_required(c: &CmdSpec, a: &ArgSpec) -> bool {
-    if a.required || !a.required_unless_any.is_empty() || !a.required_unless_all.is_empty() || !a.required_if_eq_any.is_empty() || !a.required_if_eq_all.is_empty() {
-        return true;
-    }
-    let mut names = vec![a.id.clone()];
-    for g in &c.groups {
-        if g.members.contains(&a.id) {
-            names.push(g.id.clone());
+    let mut set: Vec<String> = c.args.iter().filter(|x| x.required).map(|x| x.id.clone()).collect();
+    set.extend(c.groups.iter().filter(|g| g.required).map(|g| g.id.clone()));
+    let mut i = 0;
+    while i < set.len() {
+        let id = set[i].clone();
+        i += 1;
+        let mut add: Vec<String> = vec![];
+        if let Some(x) = c.arg(&id) {
+            add.extend(x.requires.iter().cloned());
+            add.extend(x.requires_ifs.iter().filter(|(p, _)| p.is_none()).map(|(_, r)| r.clone()));
+            // an argument stands for the groups it is in
+            for g in &c.groups {
+                if g.members.contains(&id) {
+                    add.extend(g.requires.iter().cloned());
+                }
+            }
+        }
+        if let Some(g) = c.group(&id) {
+            add.extend(g.requires.iter().cloned());
+            add.extend(g.members.iter().cloned());
+        }
+        for n in add {
+            if !set.contains(&n) {
+                set.push(n);
+            }
         }
     }
-    for o in &c.args {
-        if o.requires.iter().any(|r| names.contains(r)) || o.requires_ifs.iter().any(|(_, r)| names.contains(r)) {
-            return true;
-        }
-    }
-    for g in &c.groups {
-        if g.requires.iter().any(|r| names.contains(r)) {
-            return true;
-        }
-        if g.required && g.members.contains(&a.id) {
-            return true;
-        }
-    }
-    false
+    set.contains(&a.id)
 }
 
 fn check_text(st: &mut Stats, what: &str, out: &str, spec: &CmdSpec, ctx: &dyn Fn() -> String) -> bool {
@@ -289,11 +298,16 @@ pub fn case(seed: u64, st: &mut Stats) {
     }
     spec.settings.retain(|s| !matches!(s, Setting::Multicall | Setting::NoBinaryName));
     mark(&mut spec, "");
-    let w = match rng.below(6) {
+    let w = match rng.below(7) {
         0 => None,
         1 => Some(rng.below(12)),
+        // far end of "any terminal width"
+        6 => Some(*rng.pick(&[201usize, 255, 256, 1000, 65535, 65536, 1 << 32, usize::MAX / 2, usize::MAX - 1, usize::MAX])),
         _ => Some(rng.below(201)),
     };
+    if w.is_some_and(|w| w > 200) {
+        st.count("width.beyond-200");
+    }
     set_width(&mut spec, w);
     let cmd = match gate(&spec) {
         Ok(c) => c,
@@ -389,6 +403,26 @@ pub fn case(seed: u64, st: &mut Stats) {
                     let c2 = || format!("argv={} | {}", show_argv(&argv), ctx());
                     if check_text(st, "help-flag", &out, root, &c2) {
                         check_visibility(st, c, &out, long, hide_pv, &c2);
+                        // the usage line names the path with the parents' required arguments: nothing
+                        // hidden and optional from a level above may come along
+                        let mut anc = root;
+                        for p in path.iter() {
+                            for a in anc.args.iter().filter(|a| a.hide && !a.global && !maybe_required(anc, a)) {
+                                let marker: Option<String> = if let Some(l) = &a.long { Some(format!("--{}", l)) } else if a.takes_values() { a.value_names.first().cloned() } else { None };
+                                if let Some(m) = marker {
+                                    st.count("hidden.arg-of-a-level-above-checked");
+                                    if out.contains(m.as_str()) {
+                                        let line = out.lines().find(|l| l.contains(m.as_str())).unwrap_or("");
+                                        st.violation("c12:hidden-arg-of-a-level-above-shown", format!("{} ({}) of {:?} appears in the help of {:?}, line {:?} | {}", a.id, m, anc.name, path, line, c2()));
+                                        return;
+                                    }
+                                }
+                            }
+                            match anc.sub(p) {
+                                Some(s) => anc = s,
+                                None => break,
+                            }
+                        }
                         // level: the usage names this level's path, and no non-global argument of an ancestor is listed
                         if c.help_template.is_none() && c.override_usage.is_none() && !path.is_empty() {
                             st.count("helpflag.level-checked");
